@@ -31,7 +31,7 @@ import (
 // included in the source DAG.
 type Receipt[O, X any] interface {
 	ipld.View
-	Ran() invocation.Invocation
+	Ran() ran.Ran
 	Out() result.Result[O, X]
 	Fx() fx.Effects
 	Meta() map[string]any
@@ -65,7 +65,11 @@ var _ Receipt[any, any] = (*receipt[any, any])(nil)
 
 func (r *receipt[O, X]) Blocks() iter.Seq2[block.Block, error] {
 	var iterators []iter.Seq2[block.Block, error]
-	iterators = append(iterators, r.Ran().Blocks())
+	if inv, ok := r.Ran().Invocation(); ok {
+		iterators = append(iterators, inv.Blocks())
+	} else {
+		iterators = append(iterators, r.blks.Iterator())
+	}
 
 	for _, prf := range r.Proofs() {
 		if delegation, ok := prf.Delegation(); ok {
@@ -132,12 +136,12 @@ func (r *receipt[O, X]) Out() result.Result[O, X] {
 	return fromResultModel(r.data.Ocm.Out)
 }
 
-func (r *receipt[O, X]) Ran() invocation.Invocation {
+func (r *receipt[O, X]) Ran() ran.Ran {
 	inv, err := invocation.NewInvocationView(r.data.Ocm.Ran, r.blks)
 	if err != nil {
-		fmt.Printf("Error: creating invocation view: %s\n", err)
+		return ran.FromLink(r.data.Ocm.Ran)
 	}
-	return inv
+	return ran.FromInvocation(inv)
 }
 
 func (r *receipt[O, X]) Root() block.Block {
